@@ -2,7 +2,7 @@
 spec-conformant binary files with the independent encoder refbin.py, varying every freedom the
 document leaves open, plus the documented skip / widening cases. The files are then decoded by
 the real reader (`vh readcmp`) and compared with `expected`."""
-import copy, hashlib, json, os, random, struct, sys
+import copy, hashlib, itertools, json, os, random, struct, sys
 sys.setrecursionlimit(20000)  # trees of the size scenarios are hundreds of levels deep
 
 sys.path.insert(0, os.path.dirname(os.path.dirname(os.path.abspath(__file__))))
@@ -154,6 +154,24 @@ def build_file(L, wire, services, rng, force=None):
             body['raw_values'] = bytes(rng.randrange(256) for _ in range(rng.randrange(0, 40))).hex()
         model['chunks'].insert(at, {'name': 'PROP', 'compression': rng.choice(['none', 'lz4', 'zstd']), 'compressed_len': 0, 'len': 0, 'reserved': 0, 'body': body})
         tags.append('skip.' + kind)
+    # a class that the file declares but that has NO instances (the document sets no minimum), with PROP chunks of its own
+    # that carry zero values: nothing of it may reach the DOM, and nothing else may be disturbed
+    if rng.random() < 0.15:
+        used = {c['body'].get('class_id') for c in model['chunks'] if c['name'] in ('INST', 'PROP')}
+        cid = next(i for i in itertools.count(rng.choice([0, 1, 7, 1000])) if i not in used)
+        cname = rng.choice(['Folder', 'Part', 'ZzEmptyClass', 'Workspace'])
+        if all(c['body'].get('class_name') != cname for c in model['chunks'] if c['name'] == 'INST'):
+            first_prnt = next(i for i, c in enumerate(model['chunks']) if c['name'] == 'PRNT')
+            first_inst = next(i for i, c in enumerate(model['chunks']) if c['name'] == 'INST')
+            at = rng.randrange(first_inst, first_prnt + 1)
+            new = [{'name': 'INST', 'compression': rng.choice(['none', 'lz4', 'zstd']), 'compressed_len': 0, 'len': 0, 'reserved': 0,
+                    'body': {'class_id': cid, 'class_name': cname, 'format': 0, 'referents': [], 'markers': None}}]
+            for pn, tid in (('Name', 1), ('Anchored', 2), ('ZzCount', 3))[:rng.randrange(0, 4)]:
+                new.append({'name': 'PROP', 'compression': rng.choice(['none', 'lz4', 'zstd']), 'compressed_len': 0, 'len': 0, 'reserved': 0,
+                            'body': {'class_id': cid, 'name': pn, 'type_id': tid, 'values': [], 'trailing': 0}})
+            model['chunks'][at:at] = new
+            model['num_classes'] += 1
+            tags.append('empty-class')
     # payloads that LOOK compressed but are stored uncompressed (compressed length 0: the magic test does not apply):
     # a class id whose little-endian bytes are the Zstandard magic number, and an unknown chunk that carries a Zstandard
     # frame of its own as opaque data
